@@ -279,11 +279,28 @@ pub fn panic_signature(p: &PanicInfo) -> String {
             None => file,
         },
     };
-    let func = std::fs::read_to_string(file)
+    thread_local! {
+        static FUNC_CACHE: std::cell::RefCell<std::collections::HashMap<(String, u32), String>> = std::cell::RefCell::new(Default::default());
+    }
+    let key = (p.file.clone(), p.line);
+    let cached = FUNC_CACHE.with(|c| c.borrow().get(&key).cloned());
+    let func = cached.unwrap_or_else(|| {
+        let f = enclosing_fn(file, p.line);
+        FUNC_CACHE.with(|c| c.borrow_mut().insert(key, f.clone()));
+        f
+    });
+    // message class without embedded data ("valid utf-8: FromUtf8Error { bytes: .." -> "valid utf-#")
+    let class = p.msg_class();
+    let class = class.split(':').next().unwrap_or("").chars().take(60).collect::<String>();
+    format!("panic@{rel}:{func}:{class}")
+}
+
+fn enclosing_fn(file: &str, line: u32) -> String {
+    std::fs::read_to_string(file)
         .ok()
         .and_then(|src| {
             let lines: Vec<&str> = src.lines().collect();
-            let upto = (p.line as usize).min(lines.len());
+            let upto = (line as usize).min(lines.len());
             lines[..upto].iter().rev().find_map(|l| {
                 let t = l.trim_start();
                 let t = t.strip_prefix("pub(crate) ").or_else(|| t.strip_prefix("pub ")).unwrap_or(t);
@@ -292,8 +309,7 @@ pub fn panic_signature(p: &PanicInfo) -> String {
                 (!name.is_empty()).then_some(name)
             })
         })
-        .unwrap_or_else(|| "?".to_string());
-    format!("panic@{rel}:{func}:{}", p.msg_class())
+        .unwrap_or_else(|| "?".to_string())
 }
 
 #[derive(Clone, Debug, PartialEq, Eq)]
@@ -329,6 +345,9 @@ pub struct Report {
     pub result: Option<Res>,
     pub stats: Stats,
     pub max_alloc: usize,
+    /// Stack used by the decoder between the call of `decode` and its deepest
+    /// reader call (metered reference run).
+    pub stack_used: usize,
     /// entry points actually run
     pub ran: Vec<&'static str>,
 }
@@ -353,6 +372,7 @@ pub struct Opts {
 }
 
 struct Run {
+    stack_used: usize,
     res: Res,
     onnx: Option<bool>,
     stats: Option<Stats>,
@@ -396,7 +416,10 @@ fn metered<T>(len: usize, entry: &'static str, f: impl FnOnce() -> T) -> (Result
     (r, max_req, viol)
 }
 
+#[inline(never)]
 fn run_counting(data: &Rc<[u8]>, chunk: usize, slim: bool) -> Run {
+    let marker = 0u8;
+    let base_sp = std::hint::black_box(&marker) as *const u8 as usize;
     let (reader, stats) = CountingReader::new(data.clone(), chunk);
     let entry = if slim { "is_onnx_model(CountingReader)" } else { "ModelProto::decode(CountingReader)" };
     let (r, max_alloc, mut viol) = metered(data.len(), entry, move || {
@@ -432,7 +455,8 @@ fn run_counting(data: &Rc<[u8]>, chunk: usize, slim: bool) -> Run {
         }
         viol.push((s.clone(), format!("{entry}, chunk {}: {d}", if chunk == usize::MAX { "whole".to_string() } else { chunk.to_string() })));
     }
-    Run { res, onnx, stats: Some(st), max_alloc, viol }
+    let stack_used = if st.min_sp == 0 { 0 } else { base_sp.saturating_sub(st.min_sp) };
+    Run { stack_used, res, onnx, stats: Some(st), max_alloc, viol }
 }
 
 fn run_buf(data: &[u8], slim: bool) -> Run {
@@ -458,7 +482,7 @@ fn run_buf(data: &[u8], slim: bool) -> Run {
             Res::Panic(sig)
         }
     };
-    Run { res, onnx, stats: None, max_alloc, viol }
+    Run { stack_used: 0, res, onnx, stats: None, max_alloc, viol }
 }
 
 /// A per-thread scratch file, opened once and rewritten for every input
@@ -511,7 +535,7 @@ fn run_file(data: &[u8], dir: &Path) -> Result<Run, String> {
             Res::Panic(sig)
         }
     };
-    Ok(Run { res, onnx: None, stats: None, max_alloc, viol })
+    Ok(Run { stack_used: 0, res, onnx: None, stats: None, max_alloc, viol })
 }
 
 fn check_ok_digest(d: &Digest, len: usize, entry: &str, viol: &mut Vec<(String, String)>) {
@@ -553,6 +577,7 @@ pub fn check_bytes(bytes: &[u8], opts: &Opts) -> Report {
     rep.ran.push("decode(counting,whole)");
     rep.stats = gate.stats.clone().unwrap_or_default();
     rep.max_alloc = gate.max_alloc;
+    rep.stack_used = gate.stack_used;
     rep.violations.extend(gate.viol.iter().cloned());
     if let Res::Ok(d) = &gate.res {
         check_ok_digest(d, len, "ModelProto::decode(CountingReader)", &mut rep.violations);
